@@ -1,4 +1,5 @@
 From Coq Require Import Extraction ExtrOcamlBasic.
 From Elk Require Import Base.GoSem Model.C06_Int.
 Extraction Language OCaml.
-Separate Extraction impl den canonical Z.of_nat Z.to_nat Z.add Z.mul Z.opp Z.sub Z.compare Z.eqb Z.ltb Z.leb Z.quot Z.rem Z.div Z.modulo Pos.to_nat.
+Separate Extraction impl spec den canonical ipow ineg icmp cmp_spec icompare ishl ishr ibit bit_z big_exp big_cmp shl_spec
+  Z.of_nat Z.to_nat Z.add Z.mul Z.opp Z.sub Z.compare Z.eqb Z.ltb Z.leb Z.quot Z.rem Z.div Z.modulo Z.shiftl Z.shiftr Pos.to_nat.
